@@ -128,10 +128,11 @@ struct StaticClass {
         draw_env(p, env, large, g.tsan);
         sim::Env e = env_from_plan(p);
         size_t geps = Tr::gen_eps(p, cfg);
-        std::string sig = gen_keys_into<K>(p, n, geps, chunks_for(e, n), cfg, work);
+        bool scale = scale_slot(g) && std::is_integral_v<K> && (g.prop == "C08" || g.prop == "C09" || g.prop == "C10" || g.prop == "C18");
+        std::string sig = scale ? set_scale_recipe<K>(p, geps, cfg, work, Tr::allow_16m) : gen_keys_into<K>(p, n, geps, chunks_for(e, n), cfg, work);
         p.set("motifs", sig);
         p.set("qseed", work.next() >> 1);
-        p.set("qmax", large ? 1500 : 2000);
+        if (!scale) p.set("qmax", large ? 1500 : 2000);
         if (g.prop == "C19") { p.set("steps", draw_lifetime_steps(cfg)); p.set("qmax", large ? 300 : 400); }
         if (g.prop == "C20") p.set("reserved_copies", cfg.range(1, 3));
         p.set("known_skip", 1); // queries inside the query-level predicate of a known finding are executed but not judged
@@ -258,6 +259,7 @@ struct TraitsBase {
     static constexpr unsigned clauses = CL_RANGE | CL_FIRST_OCC | CL_LOWER_BOUND;
     static constexpr bool far_queries = true;
     static constexpr size_t max_n = 2000000;
+    static constexpr bool allow_16m = false; ///< scale slots may use more than 2^24 keys (classes predicting in the slope type)
     static size_t gen_eps(PlanText &, Rng &) { return Eps_; }
     static std::string preds(const std::vector<K> &) { return ""; }
     static bool out_of_domain(const std::exception &) { return false; }
